@@ -33,6 +33,7 @@ var intrinsicDoc = map[string]string{
 	"crypto/subtle.ConstantTimeSelect":      "v==1 ? x : y for v in {0,1}",
 	"crypto/subtle.ConstantTimeByteEq":      "1 iff x == y",
 	"foreign interface method":              "a method of an interface value whose dynamic type is not a type of this module reads and writes no memory of this module (its objects are unexported or passed by value); its scalar result is arbitrary",
+	"base-256 digits":                       "positional notation is unique: if the big-endian value of n bytes b equals x then b[i] is the i-th base-256 digit of x, written be(n,x)[i]; be(n,x) has value x",
 	"errors.New":                            "returns a fresh non-nil error",
 	"crypto/rand.Reader":                    "the package variable is a non-nil reader after the standard library's initialisation and nobody reassigns it",
 	"fmt.Errorf":                            "returns a fresh non-nil error",
